@@ -2,62 +2,24 @@
 // Use of this source code is governed by a BSD-style
 // license that can be found in the LICENSE file.
 
-// Package ssa/interp defines an interpreter for the SSA
-// representation of Go programs.
-//
-// This interpreter is provided as an adjunct for testing the SSA
-// construction algorithm.  Its purpose is to provide a minimal
-// metacircular implementation of the dynamic semantics of each SSA
-// instruction.  It is not, and will never be, a production-quality Go
-// interpreter.
-//
-// The following is a partial list of Go features that are currently
-// unsupported or incomplete in the interpreter.
-//
-// * Unsafe operations, including all uses of unsafe.Pointer, are
-// impossible to support given the "boxed" value representation we
-// have chosen.
-//
-// * The reflect package is only partially implemented.
-//
-// * The "testing" package is no longer supported because it
-// depends on low-level details that change too often.
-//
-// * "sync/atomic" operations are not atomic due to the "boxed" value
-// representation: it is not possible to read, modify and write an
-// interface value atomically. As a consequence, Mutexes are currently
-// broken.
-//
-// * recover is only partially implemented.  Also, the interpreter
-// makes no attempt to distinguish target panics from interpreter
-// crashes.
-//
-// * the sizes of the int, uint and uintptr types in the target
-// program are assumed to be the same as those of the interpreter
-// itself.
-//
-// * all values occupy space, even those of types defined by the spec
-// to have zero size, e.g. struct{}.  This can cause asymptotic
-// performance degradation.
-//
-// * os.Exit is implemented using panic, causing deferred functions to
-// run.
-package interp // import "golang.org/x/tools/go/ssa/interp"
+// This file derives from golang.org/x/tools/go/ssa/interp (v0.29.0): the
+// instruction-by-instruction skeleton is kept, scalars may be SMT terms
+// (*Term), strings may carry symbolic bytes (sstring), branches on
+// symbolic conditions are decision points of the explorer, run-time
+// panics are raised explicitly as target panics, and stores are logged
+// so that a worker can undo a path's effects on shared (init-time) memory.
+
+package main
 
 import (
 	"fmt"
 	"go/token"
 	"go/types"
-	"log"
-	"os"
-	"reflect"
 	"runtime"
 	"slices"
-	"sync/atomic"
-	_ "unsafe"
+	"strings"
 
 	"golang.org/x/tools/go/ssa"
-	"golang.org/x/tools/internal/typeparams"
 )
 
 type continuation int
@@ -68,28 +30,35 @@ const (
 	kJump
 )
 
-// Mode is a bitmask of options affecting the interpreter.
-type Mode uint
-
-const (
-	DisableRecover Mode = 1 << iota // Disable recover() in target programs; show interpreter crash instead.
-	EnableTracing                   // Print a trace of all instructions as they are interpreted.
-)
-
 type methodSet map[string]*ssa.Function
 
-// State shared between all interpreted goroutines.
+type undoRec struct {
+	addr *value
+	old  value
+}
+
+// State of one worker's interpreter.
 type interpreter struct {
-	osArgs             []value                // the value of os.Args
-	prog               *ssa.Program           // the SSA program
-	globals            map[*ssa.Global]*value // addresses of global variables (immutable)
-	mode               Mode                   // interpreter options
-	reflectPackage     *ssa.Package           // the fake reflect package
-	errorMethods       methodSet              // the method set of reflect.error, which implements the error interface.
-	rtypeMethods       methodSet              // the method set of rtype, which implements the reflect.Type interface.
-	runtimeErrorString types.Type             // the runtime.errorString type
-	sizes              types.Sizes            // the effective type-sizing function
-	goroutines         int32                  // atomically updated
+	prog               *ssa.Program
+	globals            map[*ssa.Global]*value
+	runtimeErrorString types.Type
+	sizes              types.Sizes
+
+	ts       *TermStore
+	run      *pathRun // current path run (nil during init)
+	undo     []undoRec
+	undoMaps []mapSnap
+	runGen   uint32
+	trace    bool
+	initDone map[*ssa.Package]bool
+	initFail map[*ssa.Package]string
+	fnCount  map[*ssa.Function]int64 // instructions executed per function (coverage evidence)
+	depth    int
+	rawInit  *ssa.Function
+	wantInit map[string]bool
+	sched    *scheduler // goroutine mode (nil = sequential)
+	fs       *fsModel
+	userData map[string]any
 }
 
 type deferred struct {
@@ -111,13 +80,12 @@ type frame struct {
 	panicking        bool
 	panic            interface{}
 	phitemps         []value // temporaries for parallel phi assignment
+	g                *goroutine
 }
 
 func (fr *frame) get(key ssa.Value) value {
 	switch key := key.(type) {
 	case nil:
-		// Hack; simplifies handling of optional attributes
-		// such as ssa.Slice.{Low,High}.
 		return nil
 	case *ssa.Function, *ssa.Builtin:
 		return key
@@ -127,6 +95,10 @@ func (fr *frame) get(key ssa.Value) value {
 		if r, ok := fr.i.globals[key]; ok {
 			return r
 		}
+		// global of a package whose storage was not created (should not happen)
+		cell := zero(deref(key.Type()))
+		fr.i.globals[key] = &cell
+		return &cell
 	}
 	if r, ok := fr.env[key]; ok {
 		return r
@@ -134,36 +106,36 @@ func (fr *frame) get(key ssa.Value) value {
 	panic(fmt.Sprintf("get: no value for %T: %v", key, key.Name()))
 }
 
-// runDefer runs a deferred call d.
-// It always returns normally, but may set or clear fr.panic.
-func (fr *frame) runDefer(d *deferred) {
-	if fr.i.mode&EnableTracing != 0 {
-		fmt.Fprintf(os.Stderr, "%s: invoking deferred function call\n",
-			fr.i.prog.Fset.Position(d.instr.Pos()))
+func deref(t types.Type) types.Type {
+	if p, ok := t.Underlying().(*types.Pointer); ok {
+		return p.Elem()
 	}
+	panic("deref: not a pointer: " + t.String())
+}
+
+// pathEnd is the sentinel the engine panics with to end a path run.
+type pathEnd struct {
+	kind string // "assume-false", "unsupported", "budget", "violation", "exit", "done"
+	msg  string
+}
+
+// runDefer runs a deferred call d.
+func (fr *frame) runDefer(d *deferred) {
 	var ok bool
 	defer func() {
 		if !ok {
-			// Deferred call created a new state of panic.
+			p := recover()
+			if pe, isEnd := p.(pathEnd); isEnd {
+				panic(pe)
+			}
 			fr.panicking = true
-			fr.panic = recover()
+			fr.panic = p
 		}
 	}()
 	call(fr.i, fr, d.instr.Pos(), d.fn, d.args)
 	ok = true
 }
 
-// runDefers executes fr's deferred function calls in LIFO order.
-//
-// On entry, fr.panicking indicates a state of panic; if
-// true, fr.panic contains the panic value.
-//
-// On completion, if a deferred call started a panic, or if no
-// deferred call recovered from a previous state of panic, then
-// runDefers itself panics after the last deferred call has run.
-//
-// If there was no initial state of panic, or it was recovered from,
-// runDefers returns normally.
 func (fr *frame) runDefers() {
 	for d := fr.defers; d != nil; d = d.tail {
 		fr.runDefer(d)
@@ -174,31 +146,50 @@ func (fr *frame) runDefers() {
 	}
 }
 
-// lookupMethod returns the method set for type typ, which may be one
-// of the interpreter's fake types.
 func lookupMethod(i *interpreter, typ types.Type, meth *types.Func) *ssa.Function {
-	switch typ {
-	case rtypeType:
-		return i.rtypeMethods[meth.Id()]
-	case errorType:
-		return i.errorMethods[meth.Id()]
-	}
 	return i.prog.LookupMethod(typ, meth.Pkg(), meth.Name())
 }
 
+// rtPanic raises a Go run-time panic in the target program.
+func (i *interpreter) rtPanic(msg string) {
+	panic(targetPanic{iface{i.runtimeErrorString, "runtime error: " + msg}})
+}
+
+func (i *interpreter) unsupported(format string, args ...any) {
+	panic(pathEnd{kind: "unsupported", msg: fmt.Sprintf(format, args...)})
+}
+
+func (i *interpreter) logStore(addr *value) {
+	if i.run != nil {
+		i.undo = append(i.undo, undoRec{addr, *addr})
+	}
+}
+
+// derefPtr checks a pointer operand for nil.
+func (i *interpreter) derefPtr(p value) *value {
+	switch p := p.(type) {
+	case *value:
+		if p == nil {
+			i.rtPanic("invalid memory address or nil pointer dereference")
+		}
+		return p
+	}
+	panic(fmt.Sprintf("derefPtr: unexpected pointer representation %T", p))
+}
+
 // visitInstr interprets a single ssa.Instruction within the activation
-// record frame.  It returns a continuation value indicating where to
-// read the next instruction from.
+// record frame.
 func visitInstr(fr *frame, instr ssa.Instruction) continuation {
+	i := fr.i
 	switch instr := instr.(type) {
 	case *ssa.DebugRef:
 		// no-op
 
 	case *ssa.UnOp:
-		fr.env[instr] = unop(instr, fr.get(instr.X))
+		fr.env[instr] = i.unop(fr, instr, fr.get(instr.X))
 
 	case *ssa.BinOp:
-		fr.env[instr] = binop(instr.Op, instr.X.Type(), fr.get(instr.X), fr.get(instr.Y))
+		fr.env[instr] = i.binop(instr.Op, instr.X.Type(), instr.Y.Type(), fr.get(instr.X), fr.get(instr.Y))
 
 	case *ssa.Call:
 		fn, args := prepareCall(fr, &instr.Call)
@@ -211,7 +202,7 @@ func visitInstr(fr *frame, instr ssa.Instruction) continuation {
 		fr.env[instr] = fr.get(instr.X) // (can't fail)
 
 	case *ssa.Convert:
-		fr.env[instr] = conv(instr.Type(), instr.X.Type(), fr.get(instr.X))
+		fr.env[instr] = i.conv(instr.Type(), instr.X.Type(), fr.get(instr.X))
 
 	case *ssa.SliceToArrayPointer:
 		fr.env[instr] = sliceToArrayPointer(instr.Type(), instr.X.Type(), fr.get(instr.X))
@@ -223,7 +214,7 @@ func visitInstr(fr *frame, instr ssa.Instruction) continuation {
 		fr.env[instr] = fr.get(instr.Tuple).(tuple)[instr.Index]
 
 	case *ssa.Slice:
-		fr.env[instr] = slice(fr.get(instr.X), fr.get(instr.Low), fr.get(instr.High), fr.get(instr.Max))
+		fr.env[instr] = i.slice(instr, fr.get(instr.X), fr.get(instr.Low), fr.get(instr.High), fr.get(instr.Max))
 
 	case *ssa.Return:
 		switch len(instr.Results) {
@@ -247,14 +238,19 @@ func visitInstr(fr *frame, instr ssa.Instruction) continuation {
 		panic(targetPanic{fr.get(instr.X)})
 
 	case *ssa.Send:
-		fr.get(instr.Chan).(chan value) <- fr.get(instr.X)
+		i.chanSend(fr, fr.get(instr.Chan), fr.get(instr.X))
 
 	case *ssa.Store:
-		store(typeparams.MustDeref(instr.Addr.Type()), fr.get(instr.Addr).(*value), fr.get(instr.Val))
+		addr := fr.get(instr.Addr)
+		if sp, ok := addr.(*symPtr); ok {
+			i.symStore(sp, fr.get(instr.Val))
+		} else {
+			i.store(deref(instr.Addr.Type()), i.derefPtr(addr), fr.get(instr.Val))
+		}
 
 	case *ssa.If:
 		succ := 1
-		if fr.get(instr.Cond).(bool) {
+		if i.truth(fr.get(instr.Cond)) {
 			succ = 0
 		}
 		fr.prevBlock, fr.block = fr.block, fr.block.Succs[succ]
@@ -279,53 +275,49 @@ func visitInstr(fr *frame, instr ssa.Instruction) continuation {
 
 	case *ssa.Go:
 		fn, args := prepareCall(fr, &instr.Call)
-		atomic.AddInt32(&fr.i.goroutines, 1)
-		go func() {
-			call(fr.i, nil, instr.Pos(), fn, args)
-			atomic.AddInt32(&fr.i.goroutines, -1)
-		}()
+		i.goStmt(fr, instr, fn, args)
 
 	case *ssa.MakeChan:
-		fr.env[instr] = make(chan value, asInt64(fr.get(instr.Size)))
+		fr.env[instr] = i.makeChan(int(i.concreteInt(fr.get(instr.Size))), instr.Type().Underlying().(*types.Chan).Elem())
 
 	case *ssa.Alloc:
 		var addr *value
 		if instr.Heap {
-			// new
 			addr = new(value)
 			fr.env[instr] = addr
 		} else {
-			// local
 			addr = fr.env[instr].(*value)
 		}
-		*addr = zero(typeparams.MustDeref(instr.Type()))
+		*addr = zero(deref(instr.Type()))
 
 	case *ssa.MakeSlice:
-		slice := make([]value, asInt64(fr.get(instr.Cap)))
+		c := i.concreteInt(fr.get(instr.Cap))
+		l := i.concreteInt(fr.get(instr.Len))
+		if l < 0 || l > 1<<26 {
+			i.rtPanic("makeslice: len out of range")
+		}
+		if c < l || c > 1<<26 {
+			i.rtPanic("makeslice: cap out of range")
+		}
+		slice := make([]value, c)
 		tElt := instr.Type().Underlying().(*types.Slice).Elem()
 		for i := range slice {
 			slice[i] = zero(tElt)
 		}
-		fr.env[instr] = slice[:asInt64(fr.get(instr.Len))]
+		fr.env[instr] = slice[:l]
 
 	case *ssa.MakeMap:
-		var reserve int64
-		if instr.Reserve != nil {
-			reserve = asInt64(fr.get(instr.Reserve))
-		}
-		if !fitsInt(reserve, fr.i.sizes) {
-			panic(fmt.Sprintf("ssa.MakeMap.Reserve value %d does not fit in int", reserve))
-		}
-		fr.env[instr] = makeMap(instr.Type().Underlying().(*types.Map).Key(), reserve)
+		fr.env[instr] = i.makeMap(instr.Type().Underlying().(*types.Map).Key())
 
 	case *ssa.Range:
-		fr.env[instr] = rangeIter(fr.get(instr.X), instr.X.Type())
+		fr.env[instr] = i.rangeIter(fr, fr.get(instr.X), instr.X.Type())
 
 	case *ssa.Next:
 		fr.env[instr] = fr.get(instr.Iter).(iter).next()
 
 	case *ssa.FieldAddr:
-		fr.env[instr] = &(*fr.get(instr.X).(*value)).(structure)[instr.Field]
+		p := i.derefPtr(fr.get(instr.X))
+		fr.env[instr] = &(*p).(structure)[instr.Field]
 
 	case *ssa.Field:
 		fr.env[instr] = fr.get(instr.X).(structure)[instr.Field]
@@ -333,43 +325,42 @@ func visitInstr(fr *frame, instr ssa.Instruction) continuation {
 	case *ssa.IndexAddr:
 		x := fr.get(instr.X)
 		idx := fr.get(instr.Index)
+		var cells []value
 		switch x := x.(type) {
 		case []value:
-			fr.env[instr] = &x[asInt64(idx)]
+			cells = x
 		case *value: // *array
-			fr.env[instr] = &(*x).(array)[asInt64(idx)]
+			if x == nil {
+				i.rtPanic("invalid memory address or nil pointer dereference")
+			}
+			cells = (*x).(array)
 		default:
 			panic(fmt.Sprintf("unexpected x type in IndexAddr: %T", x))
+		}
+		if t, ok := idx.(*Term); ok {
+			fr.env[instr] = i.symIndexAddr(cells, t, isSigned(instr.Index.Type()))
+		} else {
+			k := asInt64(idx)
+			if k < 0 || k >= int64(len(cells)) {
+				i.rtPanic(fmt.Sprintf("index out of range [%d] with length %d", k, len(cells)))
+			}
+			fr.env[instr] = &cells[k]
 		}
 
 	case *ssa.Index:
 		x := fr.get(instr.X)
 		idx := fr.get(instr.Index)
-
-		switch x := x.(type) {
-		case array:
-			fr.env[instr] = x[asInt64(idx)]
-		case string:
-			fr.env[instr] = x[asInt64(idx)]
-		default:
-			panic(fmt.Sprintf("unexpected x type in Index: %T", x))
-		}
+		fr.env[instr] = i.index(x, idx, isSigned(instr.Index.Type()))
 
 	case *ssa.Lookup:
-		fr.env[instr] = lookup(instr, fr.get(instr.X), fr.get(instr.Index))
+		fr.env[instr] = i.lookup(instr, fr.get(instr.X), fr.get(instr.Index))
 
 	case *ssa.MapUpdate:
-		m := fr.get(instr.Map)
-		key := fr.get(instr.Key)
-		v := fr.get(instr.Value)
-		switch m := m.(type) {
-		case map[value]value:
-			m[key] = v
-		case *hashmap:
-			m.insert(key.(hashable), v)
-		default:
-			panic(fmt.Sprintf("illegal map type: %T", m))
+		m := fr.get(instr.Map).(*gmap)
+		if m == nil {
+			panic(targetPanic{iface{i.runtimeErrorString, "assignment to entry in nil map"}})
 		}
+		i.mapInsert(m, fr.get(instr.Key), fr.get(instr.Value))
 
 	case *ssa.TypeAssert:
 		fr.env[instr] = typeAssert(fr.i, instr, fr.get(instr.X).(iface))
@@ -382,58 +373,14 @@ func visitInstr(fr *frame, instr ssa.Instruction) continuation {
 		fr.env[instr] = &closure{instr.Fn.(*ssa.Function), bindings}
 
 	case *ssa.Phi:
-		log.Fatal("unreachable") // phis are processed at block entry
+		panic("unreachable: phi") // phis are processed at block entry
 
 	case *ssa.Select:
-		var cases []reflect.SelectCase
-		if !instr.Blocking {
-			cases = append(cases, reflect.SelectCase{
-				Dir: reflect.SelectDefault,
-			})
-		}
-		for _, state := range instr.States {
-			var dir reflect.SelectDir
-			if state.Dir == types.RecvOnly {
-				dir = reflect.SelectRecv
-			} else {
-				dir = reflect.SelectSend
-			}
-			var send reflect.Value
-			if state.Send != nil {
-				send = reflect.ValueOf(fr.get(state.Send))
-			}
-			cases = append(cases, reflect.SelectCase{
-				Dir:  dir,
-				Chan: reflect.ValueOf(fr.get(state.Chan)),
-				Send: send,
-			})
-		}
-		chosen, recv, recvOk := reflect.Select(cases)
-		if !instr.Blocking {
-			chosen-- // default case should have index -1.
-		}
-		r := tuple{chosen, recvOk}
-		for i, st := range instr.States {
-			if st.Dir == types.RecvOnly {
-				var v value
-				if i == chosen && recvOk {
-					// No need to copy since send makes an unaliased copy.
-					v = recv.Interface().(value)
-				} else {
-					v = zero(st.Chan.Type().Underlying().(*types.Chan).Elem())
-				}
-				r = append(r, v)
-			}
-		}
-		fr.env[instr] = r
+		fr.env[instr] = i.selectStmt(fr, instr)
 
 	default:
 		panic(fmt.Sprintf("unexpected instruction: %T", instr))
 	}
-
-	// if val, ok := instr.(ssa.Value); ok {
-	// 	fmt.Println(toString(fr.env[val])) // debugging
-	// }
 
 	return kNext
 }
@@ -450,10 +397,9 @@ func prepareCall(fr *frame, call *ssa.CallCommon) (fn value, args []value) {
 		// Interface method invocation.
 		recv := v.(iface)
 		if recv.t == nil {
-			panic("method invoked on nil interface")
+			fr.i.rtPanic("invalid memory address or nil pointer dereference")
 		}
 		if f := lookupMethod(fr.i, recv.t, call.Method); f == nil {
-			// Unreachable in well-typed programs.
 			panic(fmt.Sprintf("method set for dynamic type %v does not contain %s", recv.t, call.Method))
 		} else {
 			fn = f
@@ -468,12 +414,11 @@ func prepareCall(fr *frame, call *ssa.CallCommon) (fn value, args []value) {
 
 // call interprets a call to a function (function, builtin or closure)
 // fn with arguments args, returning its result.
-// callpos is the position of the callsite.
 func call(i *interpreter, caller *frame, callpos token.Pos, fn value, args []value) value {
 	switch fn := fn.(type) {
 	case *ssa.Function:
 		if fn == nil {
-			panic("call of nil function") // nil of func type
+			i.rtPanic("invalid memory address or nil pointer dereference") // nil of func type
 		}
 		return callSSA(i, caller, callpos, fn, args, nil)
 	case *closure:
@@ -484,55 +429,52 @@ func call(i *interpreter, caller *frame, callpos token.Pos, fn value, args []val
 	panic(fmt.Sprintf("cannot call %T", fn))
 }
 
-func loc(fset *token.FileSet, pos token.Pos) string {
-	if pos == token.NoPos {
-		return ""
-	}
-	return " at " + fset.Position(pos).String()
-}
+const maxCallDepth = 4000
 
 // callSSA interprets a call to function fn with arguments args,
 // and lexical environment env, returning its result.
-// callpos is the position of the callsite.
 func callSSA(i *interpreter, caller *frame, callpos token.Pos, fn *ssa.Function, args []value, env []value) value {
-	if i.mode&EnableTracing != 0 {
-		fset := fn.Prog.Fset
-		// TODO(adonovan): fix: loc() lies for external functions.
-		fmt.Fprintf(os.Stderr, "Entering %s%s.\n", fn, loc(fset, fn.Pos()))
-		suffix := ""
-		if caller != nil {
-			suffix = ", resuming " + caller.fn.String() + loc(fset, callpos)
-		}
-		defer fmt.Fprintf(os.Stderr, "Leaving %s%s.\n", fn, suffix)
-	}
 	fr := &frame{
 		i:      i,
 		caller: caller, // for panic/recover
 		fn:     fn,
 	}
-	if fn.Parent() == nil {
-		name := fn.String()
-		if ext := externals[name]; ext != nil {
-			if i.mode&EnableTracing != 0 {
-				fmt.Fprintln(os.Stderr, "\t(external)")
-			}
-			return ext(fr, args)
-		}
-		if fn.Blocks == nil {
-			panic("no code for function: " + name)
-		}
+	if caller != nil {
+		fr.g = caller.g
 	}
-
-	// generic function body?
+	if fn.Synthetic == "package initializer" && fn != i.rawInit {
+		if fn.Pkg != nil {
+			i.initPackage(fn.Pkg, i.wantInit)
+		}
+		return nil
+	}
+	if ext := findExternal(fn); ext != nil {
+		if i.trace {
+			fmt.Printf("%*s(external) %s\n", i.depth, "", fn)
+		}
+		return ext(fr, args)
+	}
+	if fn.Blocks == nil {
+		i.unsupported("no code for function: %s", fn.String())
+	}
 	if fn.TypeParams().Len() > 0 && len(fn.TypeArgs()) == 0 {
-		panic("interp requires ssa.BuilderMode to include InstantiateGenerics to execute generics")
+		panic("generic function body reached without instantiation: " + fn.String())
+	}
+	i.depth++
+	if i.depth > maxCallDepth {
+		i.depth--
+		panic(pathEnd{kind: "budget", msg: "call depth exceeded in " + fn.String()})
+	}
+	defer func() { i.depth-- }()
+	if i.trace {
+		fmt.Printf("%*sEntering %s\n", i.depth, "", fn)
 	}
 
-	fr.env = make(map[ssa.Value]value)
+	fr.env = make(map[ssa.Value]value, 16)
 	fr.block = fn.Blocks[0]
 	fr.locals = make([]value, len(fn.Locals))
 	for i, l := range fn.Locals {
-		fr.locals[i] = zero(typeparams.MustDeref(l.Type()))
+		fr.locals[i] = zero(deref(l.Type()))
 		fr.env[l] = &fr.locals[i]
 	}
 	for i, p := range fn.Params {
@@ -544,65 +486,124 @@ func callSSA(i *interpreter, caller *frame, callpos token.Pos, fn *ssa.Function,
 	for fr.block != nil {
 		runFrame(fr)
 	}
-	// Destroy the locals to avoid accidental use after return.
-	for i := range fn.Locals {
-		fr.locals[i] = bad{}
-	}
 	return fr.result
 }
 
 // runFrame executes SSA instructions starting at fr.block and
 // continuing until a return, a panic, or a recovered panic.
-//
-// After a panic, runFrame panics.
-//
-// After a normal return, fr.result contains the result of the call
-// and fr.block is nil.
-//
-// A recovered panic in a function without named return parameters
-// (NRPs) becomes a normal return of the zero value of the function's
-// result type.
-//
-// After a recovered panic in a function with NRPs, fr.result is
-// undefined and fr.block contains the block at which to resume
-// control.
 func runFrame(fr *frame) {
 	defer func() {
 		if fr.block == nil {
 			return // normal return
 		}
-		if fr.i.mode&DisableRecover != 0 {
-			return // let interpreter crash
+		p := recover()
+		switch p := p.(type) {
+		case pathEnd:
+			panic(p)
+		case targetPanic:
+		case exitPanic:
+			panic(pathEnd{kind: "exit", msg: fmt.Sprint(int(p))})
+		case goexitPanic:
+		default:
+			// a crash of the interpreter itself: unsupported construct or engine bug
+			var where string
+			if fr.block != nil {
+				where = fr.fn.String()
+			}
+			buf := make([]byte, 4096)
+			buf = buf[:runtime.Stack(buf, false)]
+			panic(pathEnd{kind: "unsupported", msg: fmt.Sprintf("engine: %v in %s\n%s", p, where, trimStack(string(buf)))})
 		}
 		fr.panicking = true
-		fr.panic = recover()
-		if fr.i.mode&EnableTracing != 0 {
-			fmt.Fprintf(os.Stderr, "Panicking: %T %v.\n", fr.panic, fr.panic)
-		}
+		fr.panic = p
 		fr.runDefers()
 		fr.block = fr.fn.Recover
 	}()
 
+	i := fr.i
 	for {
-		if fr.i.mode&EnableTracing != 0 {
-			fmt.Fprintf(os.Stderr, ".%s:\n", fr.block)
-		}
-
 		nonPhis := executePhis(fr)
+		n := int64(len(nonPhis))
+		if i.run != nil {
+			i.run.steps += n
+			if i.run.steps > i.run.maxSteps {
+				panic(pathEnd{kind: "budget", msg: "instruction budget exceeded in " + fr.fn.String()})
+			}
+			if i.fnCount != nil {
+				i.fnCount[fr.fn] += n
+			}
+		}
 		for _, instr := range nonPhis {
-			if fr.i.mode&EnableTracing != 0 {
+			if i.trace {
 				if v, ok := instr.(ssa.Value); ok {
-					fmt.Fprintln(os.Stderr, "\t", v.Name(), "=", instr)
+					fmt.Printf("%*s\t%s = %s\n", i.depth, "", v.Name(), instr)
 				} else {
-					fmt.Fprintln(os.Stderr, "\t", instr)
+					fmt.Printf("%*s\t%s\n", i.depth, "", instr)
 				}
+			}
+			if i.run == nil {
+				if lenientVisit(fr, instr) == kReturn {
+					return
+				}
+				continue
 			}
 			if visitInstr(fr, instr) == kReturn {
 				return
 			}
-			// Inv: kNext (continue) or kJump (last instr)
 		}
 	}
+}
+
+// lenientVisit executes one instruction during package initialisation;
+// an instruction the engine cannot execute yields the zero value of its
+// type (recorded in initFail) instead of aborting the whole init.
+func lenientVisit(fr *frame, instr ssa.Instruction) (k continuation) {
+	defer func() {
+		if p := recover(); p != nil {
+			pe, ok := p.(pathEnd)
+			if tp, isT := p.(targetPanic); isT {
+				pe, ok = pathEnd{kind: "unsupported", msg: "panic during init: " + describePanic(tp)}, true
+			}
+			if !ok || pe.kind != "unsupported" {
+				panic(p)
+			}
+			if fr.fn.Pkg != nil {
+				if _, seen := fr.i.initFail[fr.fn.Pkg]; !seen {
+					fr.i.initFail[fr.fn.Pkg] = "lenient: " + pe.msg
+				}
+			}
+			if v, isVal := instr.(ssa.Value); isVal {
+				func() {
+					defer func() {
+						if recover() != nil {
+							fr.env[v] = nil
+						}
+					}()
+					fr.env[v] = zero(v.Type())
+				}()
+			}
+			k = kNext
+			if _, isIf := instr.(*ssa.If); isIf {
+				fr.prevBlock, fr.block = fr.block, fr.block.Succs[1]
+				k = kJump
+			}
+		}
+	}()
+	return visitInstr(fr, instr)
+}
+
+func trimStack(s string) string {
+	lines := strings.Split(s, "\n")
+	var out []string
+	for _, l := range lines {
+		if strings.Contains(l, "/gosym/") {
+			out = append(out, strings.TrimSpace(l))
+			if len(out) >= 6 {
+				break
+			}
+		}
+	}
+	return strings.Join(out, " | ")
 }
 
 // executePhis executes the phi-nodes at the start of the current
@@ -615,22 +616,13 @@ func executePhis(fr *frame) []ssa.Instruction {
 			break
 		}
 	}
-	// Inv: 0 <= firstNonPhi; every block contains a non-phi.
-
 	nonPhis := fr.block.Instrs[firstNonPhi:]
 	if firstNonPhi > 0 {
 		phis := fr.block.Instrs[:firstNonPhi]
-		// Execute parallel assignment of phis.
-		//
-		// See "the swap problem" in Briggs et al's "Practical Improvements
-		// to the Construction and Destruction of SSA Form" for discussion.
 		predIndex := slices.Index(fr.block.Preds, fr.prevBlock)
 		fr.phitemps = fr.phitemps[:0]
 		for _, phi := range phis {
 			phi := phi.(*ssa.Phi)
-			if fr.i.mode&EnableTracing != 0 {
-				fmt.Fprintln(os.Stderr, "\t", phi.Name(), "=", phi)
-			}
 			fr.phitemps = append(fr.phitemps, fr.get(phi.Edges[predIndex]))
 		}
 		for i, phi := range phis {
@@ -642,28 +634,18 @@ func executePhis(fr *frame) []ssa.Instruction {
 
 // doRecover implements the recover() built-in.
 func doRecover(caller *frame) value {
-	// recover() must be exactly one level beneath the deferred
-	// function (two levels beneath the panicking function) to
-	// have any effect.  Thus we ignore both "defer recover()" and
-	// "defer f() -> g() -> recover()".
-	if caller.i.mode&DisableRecover == 0 &&
-		caller != nil && !caller.panicking &&
+	if caller != nil && !caller.panicking &&
 		caller.caller != nil && caller.caller.panicking {
 		caller.caller.panicking = false
 		p := caller.caller.panic
 		caller.caller.panic = nil
-
-		// TODO(adonovan): support runtime.Goexit.
 		switch p := p.(type) {
 		case targetPanic:
-			// The target program explicitly called panic().
 			return p.v
-		case runtime.Error:
-			// The interpreter encountered a runtime error.
-			return iface{caller.i.runtimeErrorString, p.Error()}
-		case string:
-			// The interpreter explicitly called panic().
-			return iface{caller.i.runtimeErrorString, p}
+		case goexitPanic:
+			caller.caller.panicking = true
+			caller.caller.panic = p
+			return iface{}
 		default:
 			panic(fmt.Sprintf("unexpected panic type %T in target call to recover()", p))
 		}
@@ -671,85 +653,118 @@ func doRecover(caller *frame) value {
 	return iface{}
 }
 
-// Interpret interprets the Go program whose main package is mainpkg.
-// mode specifies various interpreter options.  filename and args are
-// the initial values of os.Args for the target program.  sizes is the
-// effective type-sizing function for this program.
-//
-// Interpret returns the exit code of the program: 2 for panic (like
-// gc does), or the argument to os.Exit for normal termination.
-//
-// The SSA program must include the "runtime" package.
-//
-// Type parameterized functions must have been built with
-// InstantiateGenerics in the ssa.BuilderMode to be interpreted.
-func Interpret(mainpkg *ssa.Package, mode Mode, sizes types.Sizes, filename string, args []string) (exitCode int) {
+type goexitPanic struct{}
+
+// newInterpreter creates a worker interpreter over prog and allocates
+// global storage.
+func newInterpreter(prog *ssa.Program, sizes types.Sizes) *interpreter {
 	i := &interpreter{
-		prog:       mainpkg.Prog,
-		globals:    make(map[*ssa.Global]*value),
-		mode:       mode,
-		sizes:      sizes,
-		goroutines: 1,
+		prog:     prog,
+		globals:  make(map[*ssa.Global]*value),
+		sizes:    sizes,
+		ts:       NewTermStore(),
+		initDone: map[*ssa.Package]bool{},
+		initFail: map[*ssa.Package]string{},
+		userData: map[string]any{},
 	}
-	runtimePkg := i.prog.ImportedPackage("runtime")
+	runtimePkg := prog.ImportedPackage("runtime")
 	if runtimePkg == nil {
 		panic("ssa.Program doesn't include runtime package")
 	}
 	i.runtimeErrorString = runtimePkg.Type("errorString").Object().Type()
-
-	initReflect(i)
-
-	i.osArgs = append(i.osArgs, filename)
-	for _, arg := range args {
-		i.osArgs = append(i.osArgs, arg)
-	}
-
-	for _, pkg := range i.prog.AllPackages() {
-		// Initialize global storage.
+	for _, pkg := range prog.AllPackages() {
 		for _, m := range pkg.Members {
-			switch v := m.(type) {
-			case *ssa.Global:
-				cell := zero(typeparams.MustDeref(v.Type()))
+			if v, ok := m.(*ssa.Global); ok {
+				cell := zero(deref(v.Type()))
 				i.globals[v] = &cell
 			}
 		}
 	}
-
-	// Top-level error handler.
-	exitCode = 2
-	defer func() {
-		if exitCode != 2 || i.mode&DisableRecover != 0 {
-			return
-		}
-		switch p := recover().(type) {
-		case exitPanic:
-			exitCode = int(p)
-			return
-		case targetPanic:
-			fmt.Fprintln(os.Stderr, "panic:", toString(p.v))
-		case runtime.Error:
-			fmt.Fprintln(os.Stderr, "panic:", p.Error())
-		case string:
-			fmt.Fprintln(os.Stderr, "panic:", p)
-		default:
-			fmt.Fprintf(os.Stderr, "panic: unexpected type: %T: %v\n", p, p)
-		}
-
-		// TODO(adonovan): dump panicking interpreter goroutine?
-		// buf := make([]byte, 0x10000)
-		// runtime.Stack(buf, false)
-		// fmt.Fprintln(os.Stderr, string(buf))
-		// (Or dump panicking target goroutine?)
-	}()
-
-	// Run!
-	call(i, nil, token.NoPos, mainpkg.Func("init"), nil)
-	if mainFn := mainpkg.Func("main"); mainFn != nil {
-		call(i, nil, token.NoPos, mainFn, nil)
-		exitCode = 0
-	} else {
-		fmt.Fprintln(os.Stderr, "No main function.")
-		exitCode = 1
-	}
-	return
+	return i
 }
+
+// Packages whose init functions are never interpreted (their globals
+// stay zero; their functions are stubbed or unsupported).
+var skipInit = map[string]bool{
+	"runtime": true, "os": true, "syscall": true, "reflect": true, "sync": true, "time": true,
+	"internal/poll": true, "internal/testlog": true, "os/signal": true, "net": true, "os/exec": true,
+	"internal/godebug": true, "internal/cpu": true, "internal/bytealg": true, "internal/syscall/unix": true,
+	"sync/atomic": true, "internal/reflectlite": true, "io/fs": false, "log": true, "fmt": true,
+	"internal/fmtsort": true, "encoding/json": true, "encoding/base64": false, "internal/oserror": false,
+	"testing": true, "flag": true, "runtime/debug": true, "runtime/pprof": true, "runtime/trace": true,
+	"os/user": true, "crypto/sha256": true, "crypto": true, "hash/crc32": true, "math/rand": true, "internal/abi": true,
+	"internal/race": true, "internal/itoa": true, "context": true, "internal/sysinfo": true, "internal/goos": true,
+	"text/template": true, "go/build": true, "go/doc": true, "net/http": true, "net/url": true, "crypto/tls": true,
+	"github.com/qiniu/x/log": true, "go/types": true, "go/importer": true, "math/big": true, "go/constant": true,
+	"compress/flate": true, "compress/gzip": true, "archive/zip": true, "mime": true, "regexp": true, "regexp/syntax": true,
+	"github.com/fsnotify/fsnotify": true, "golang.org/x/sys/unix": true, "html/template": true, "html": true, "text/template/parse": true,
+	"go/doc/comment": true, "internal/buildcfg": true, "internal/goroot": true, "go/build/constraint": false, "math/rand/v2": true,
+	"crypto/md5": true, "crypto/sha1": true, "crypto/sha512": true, "hash/fnv": true, "encoding/binary": true, "internal/profile": true,
+	"log/slog": true, "internal/bisect": true, "iter": true, "unique": true, "weak": true, "internal/sync": true, "crypto/rand": true,
+	"github.com/goplus/gogen": true, "github.com/goplus/gogen/packages": true, "github.com/goplus/gogen/internal": true,
+	"golang.org/x/mod/module": true, "golang.org/x/mod/semver": false, "github.com/goplus/mod/modcache": true, "github.com/goplus/mod/env": true,
+	"github.com/goplus/mod": true, "github.com/goplus/mod/modfetch": true, "github.com/goplus/mod/modload": true, "github.com/goplus/mod/xgomod": true,
+	"github.com/goplus/xgo/cl": true, "github.com/goplus/xgo/tool": false, "text/tabwriter": false,
+}
+
+// initPackage runs pkg's init function (after its imports') once per worker.
+func (i *interpreter) initPackage(pkg *ssa.Package, wanted map[string]bool) {
+	if i.initDone[pkg] {
+		return
+	}
+	i.initDone[pkg] = true
+	i.wantInit = wanted
+	for _, imp := range pkg.Pkg.Imports() {
+		if p := i.prog.Package(imp); p != nil {
+			i.initPackage(p, wanted)
+		}
+	}
+	path := pkg.Pkg.Path()
+	if skipInit[path] && !wanted[path] {
+		i.initFail[pkg] = "skipped by configuration"
+		return
+	}
+	if strings.HasPrefix(path, "internal/") || strings.HasPrefix(path, "vendor/") || strings.HasPrefix(path, "crypto/") {
+		if !wanted[path] {
+			i.initFail[pkg] = "skipped (internal)"
+			return
+		}
+	}
+	fn := pkg.Func("init")
+	if fn == nil {
+		return
+	}
+	func() {
+		defer func() {
+			if p := recover(); p != nil {
+				i.initFail[pkg] = fmt.Sprint(p)
+				i.depth = 0
+			}
+		}()
+		// The package's own init body re-invokes its imports' init via
+		// init guards (init$guard); those calls are cheap no-ops here
+		// because guards are ordinary globals.
+		i.callInitBody(fn)
+	}()
+}
+
+// callInitBody runs a package init function but ignores calls to other
+// packages' init functions (handled by initPackage in dependency order).
+func (i *interpreter) callInitBody(fn *ssa.Function) {
+	old := i.rawInit
+	i.rawInit = fn
+	defer func() { i.rawInit = old }()
+	call(i, nil, token.NoPos, fn, nil)
+}
+
+// If the target program panics, the interpreter panics with this type.
+type targetPanic struct {
+	v value
+}
+
+func (p targetPanic) String() string {
+	return toString(p.v)
+}
+
+// If the target program calls exit, the interpreter panics with this type.
+type exitPanic int
